@@ -76,8 +76,8 @@ func Build(repo string) (*World, error) {
 // Difference is one concrete way in which the tree violates C15.
 type Difference struct {
 	Contract      string `json:"contract"`
-	File          string `json:"file"`            // path relative to the repository root
-	Kind          string `json:"kind"`            // nef | manifest | binding | safemethods | binding-call | order | version
+	File          string `json:"file"`              // path relative to the repository root
+	Kind          string `json:"kind"`              // nef | manifest | binding | safemethods | binding-call | order | version
 	Offset        int    `json:"first_diff_offset"` // byte offset of the first difference (-1: not a byte comparison)
 	CommittedLen  int    `json:"committed_len"`
 	FreshLen      int    `json:"fresh_len"`
@@ -499,6 +499,7 @@ Local Open Scope string_scope.
 	fmt.Fprintf(&sb, "Definition p_contracts_fsContracts_list : list string := %s.\n", coqStrList(p.FsContracts))
 	fmt.Fprintf(&sb, "Definition p_contracts_mainContracts_list : list string := %s.\n", coqStrList(p.MainContracts))
 	fmt.Fprintf(&sb, "Definition p_contract_dirs : list string := %s.\n", coqStrList(p.ContractDirs))
+	fmt.Fprintf(&sb, "(* NNS domains assigned to syncPrm.domainName in deploy.Deploy (deploy/deploy.go), in source order: the stages after the NNS *)\nDefinition p_deploy_stage_order : list string := %s.\n", coqStrList(p.DeployStages))
 	var es []string
 	for _, e := range p.Edges {
 		es = append(es, fmt.Sprintf("(%s, %s) (* %s, %s *)", coqStr(e.From), coqStr(e.To), e.Via, e.Path))
